@@ -777,7 +777,19 @@ func (fc *funcContext) translateExpr(expr ast.Expr) *expression {
 			case types.FieldVal:
 				fields, jsTag := fc.translateSelection(sel, f.Pos())
 				if jsTag != "" {
-					call := fc.formatExpr("%e.%s%s(%s)", f.X, strings.Join(fields, "."), formatJSStructTagVal(jsTag), externalizeArgs(e.Args))
+					var call *expression
+					if !e.Ellipsis.IsValid() {
+						call = fc.formatExpr("%e.%s%s(%s)", f.X, strings.Join(fields, "."), formatJSStructTagVal(jsTag), externalizeArgs(e.Args))
+					} else {
+						// f(a, s...): the elements of s are separate arguments, not one array.
+						last := len(e.Args) - 1
+						args := externalizeExpr(e.Args[last])
+						if last > 0 {
+							args = fmt.Sprintf("[%s].concat($global.Array.prototype.slice.call(%s || []))", externalizeArgs(e.Args[:last]), args)
+						}
+						objVar := fc.newLocalVariable("obj")
+						call = fc.formatExpr("(%s = %e.%s, %s%s.apply(%s, %s))", objVar, f.X, strings.Join(fields, "."), objVar, formatJSStructTagVal(jsTag), objVar, args)
+					}
 					switch sig.Results().Len() {
 					case 0:
 						return call
